@@ -121,7 +121,9 @@ def run(ctx, chk):
             ok = last is False and pa.events[-1].kind == "ret"
             # nothing but loads between the last decoder call's bookkeeping and the return
             idx = max(i for i, e in enumerate(pa.events) if e.kind == "call" and e.callee == "cbor_stream_decode")
-            tail_calls = [e for e in pa.events[idx + 1:] if e.kind == "call"]
+            # (calls that only tidy up locals - e.g. releasing a cached stack record - do not concern the result)
+            tail_calls = [e for e in pa.events[idx + 1:] if e.kind == "call" and (e.callee == "cbor_stream_decode" or e.ckind == "callback" or
+                          any(isinstance(a, tuple) and (P.derives(a, RES) or P.derives(a, SRC)) for a in e.args))]
             ok = ok and not tail_calls
             chk.ob("C14.stop", "path %d: root returned as soon as the stack is empty (%d decoder calls)" % (k, len(decodes)), ok, where,
                    fn=f.name, key="stop:%d" % k, detail="" if ok else "loop exit condition / trailing calls: %s" % tail_calls)
